@@ -517,6 +517,16 @@ func runC13(c *Ctx) {
 	checkConcurrentCopyOnlyOfRegularFiles(c, "R14")
 	checkFillCountsEveryRead(c, "R15")
 	checkNilOnlyWhenComplete(c, "R16")
+	// R17 (shared with C01.R1): the count a sequential loop returns grows by what each chunk's helper counted, at the
+	// offsets start+cursor — counted by the chunk's size instead, the count names bytes that never moved
+	c.withRule("R17", func() {
+		c01TransferSitesOnly = true
+		defer func() { c01TransferSitesOnly = false }()
+		runC01(c)
+	})
+	// R18 (shared with C20.Z8): with a worker count of zero the concurrent transfers start no worker, nothing moves
+	// and the reducers report the full length with a nil error
+	checkWorkerCountBounded(c, "R18")
 
 	// R7: ReadFrom / ReadFromWithConcurrency leave the File offset at the end of the intact prefix
 	checkOffsetStores(c, "R7", map[string]bool{"(*File).ReadFrom": true, "(*File).readFromWithConcurrency": true})
